@@ -6,6 +6,12 @@
 //	slice: nil | [] | [1,2,3]    pairs: nil | [] | [1:2,3:4]    flat: nil | [] | [1,x,3]
 //	pred:  eq:C lt:C even odd true false idxlt:C idxeven    mapf: add:C mul:C const:C idx idxadd rem3
 //	equal: eq mod3 le lt
+//	ty may carry a layout "@off,spare": every slice argument then sits at offset `off` of its own
+//	backing array and has `spare` cells of capacity behind it (sentinel values in all extra cells).
+//
+// After " | " the memory observables follow: for every result slice "r@nil", "r@empty" (cap 0),
+// "r@<k>+<cell offset>,<len>,<cap>" when its first cell lies inside the backing array of argument k,
+// "r@new,<len>" otherwise; then the whole backing array of every slice argument, cell by cell.
 //
 // Results from Go map iteration are printed in the order obtained, inside {...}; the check
 // script sorts them.
@@ -17,6 +23,7 @@ import (
 	"os"
 	"strconv"
 	"strings"
+	"unsafe"
 
 	"github.com/ecodeclub/ekit/mapx"
 	"github.com/ecodeclub/ekit/slice"
@@ -85,6 +92,84 @@ func mkSlice[T comparable](c codec[T], s string, spare int) []T {
 		res[i] = c.enc(atoi(x))
 	}
 	return res
+}
+
+// ---- memory observables ----
+type argInfo struct {
+	lo, hi uintptr
+	dump   func() string
+}
+type resInfo struct {
+	ptr   uintptr
+	n, c  int
+	isNil bool
+	size  uintptr
+}
+type memrec struct {
+	args []argInfo
+	res  []resInfo
+}
+
+func sentinel(k, i int) int { return -(1000*(k+1) + i) }
+
+// mkArg builds argument number len(rec.args): off sentinel cells, the elements, spare sentinel cells
+func mkArg[T comparable](c codec[T], rec *memrec, s string, off, spare int) []T {
+	k := len(rec.args)
+	if s == "nil" {
+		rec.args = append(rec.args, argInfo{dump: func() string { return "A" + strconv.Itoa(k) + "[]" }})
+		return nil
+	}
+	it := items(s)
+	full := make([]T, off+len(it)+spare)
+	for i := 0; i < off; i++ {
+		full[i] = c.enc(sentinel(k, i))
+	}
+	for i, x := range it {
+		full[off+i] = c.enc(atoi(x))
+	}
+	for i := 0; i < spare; i++ {
+		full[off+len(it)+i] = c.enc(sentinel(k, off+i))
+	}
+	a := argInfo{dump: func() string { return showInts("A"+strconv.Itoa(k)+"[", "]", "", false, decAll(c, full)) }}
+	if len(full) > 0 {
+		a.lo = uintptr(unsafe.Pointer(&full[0]))
+		a.hi = a.lo + uintptr(len(full))*unsafe.Sizeof(full[0])
+	}
+	rec.args = append(rec.args, a)
+	return full[off : off+len(it) : off+len(it)+spare]
+}
+
+func note[E any](rec *memrec, r []E) {
+	var z E
+	rec.res = append(rec.res, resInfo{ptr: uintptr(unsafe.Pointer(unsafe.SliceData(r))), n: len(r), c: cap(r),
+		isNil: r == nil, size: unsafe.Sizeof(z)})
+}
+
+func (rec *memrec) String() string {
+	if len(rec.args) == 0 && len(rec.res) == 0 {
+		return ""
+	}
+	parts := []string{}
+	for _, r := range rec.res {
+		switch {
+		case r.isNil:
+			parts = append(parts, "r@nil")
+		case r.c == 0:
+			parts = append(parts, "r@empty")
+		default:
+			d := "r@new," + strconv.Itoa(r.n)
+			for k, a := range rec.args {
+				if a.lo != a.hi && r.ptr >= a.lo && r.ptr < a.hi {
+					d = fmt.Sprintf("r@%d+%d,%d,%d", k, (r.ptr-a.lo)/r.size, r.n, r.c)
+				}
+			}
+			parts = append(parts, d)
+		}
+	}
+	for _, a := range rec.args {
+		parts = append(parts, a.dump())
+	}
+	return " | " + strings.Join(parts, " ")
 }
 
 func mkPairs[T comparable](c codec[T], s string) []pair.Pair[T, T] {
@@ -305,13 +390,18 @@ func catch(f func() string) (res string) {
 	return f()
 }
 
-func runCase[T comparable](c codec[T], w []string) string {
+func runCase[T comparable](c codec[T], w []string, off, spare int) string {
+	rec := &memrec{}
+	return runCall(c, w, off, spare, rec) + rec.String()
+}
+
+func runCall[T comparable](c codec[T], w []string, off, spare int, rec *memrec) string {
 	need := func(n int) {
 		if len(w) != n+1 {
 			panic(bad{"arity"})
 		}
 	}
-	sl := func(s string) []T { return mkSlice(c, s, 0) }
+	sl := func(s string) []T { return mkArg(c, rec, s, off, spare) }
 	eq := func(e string) func(a, b T) bool {
 		evalEq(e, 0, 0)
 		return func(a, b T) bool { return evalEq(e, c.dec(a), c.dec(b)) }
@@ -336,6 +426,7 @@ func runCase[T comparable](c codec[T], w []string) string {
 		default:
 			r = slice.SymmetricDiffSet(a, b)
 		}
+		note(rec, r)
 		return showSet(c, r) + " " + ss(a) + " " + ss(b)
 	case "ContainsAny", "ContainsAll":
 		need(2)
@@ -361,6 +452,7 @@ func runCase[T comparable](c codec[T], w []string) string {
 		default:
 			r = slice.SymmetricDiffSetFunc(a, b, e)
 		}
+		note(rec, r)
 		return ss(r) + " " + ss(a) + " " + ss(b)
 	case "ContainsAnyFunc", "ContainsAllFunc":
 		need(3)
@@ -401,11 +493,15 @@ func runCase[T comparable](c codec[T], w []string) string {
 	case "IndexAll":
 		need(2)
 		a := sl(w[1])
-		return showIdx(slice.IndexAll(a, c.enc(atoi(w[2])))) + " " + ss(a)
+		r := slice.IndexAll(a, c.enc(atoi(w[2])))
+		note(rec, r)
+		return showIdx(r) + " " + ss(a)
 	case "IndexAllFunc":
 		need(2)
 		a := sl(w[1])
-		return showIdx(slice.IndexAllFunc(a, mt(w[2]))) + " " + ss(a)
+		r := slice.IndexAllFunc(a, mt(w[2]))
+		note(rec, r)
+		return showIdx(r) + " " + ss(a)
 	case "Find":
 		need(2)
 		a := sl(w[1])
@@ -414,7 +510,9 @@ func runCase[T comparable](c codec[T], w []string) string {
 	case "FindAll":
 		need(2)
 		a := sl(w[1])
-		return ss(slice.FindAll(a, mt(w[2]))) + " " + ss(a)
+		r := slice.FindAll(a, mt(w[2]))
+		note(rec, r)
+		return ss(r) + " " + ss(a)
 	case "FilterMap":
 		need(3)
 		a, f, p := sl(w[1]), w[2], w[3]
@@ -423,12 +521,14 @@ func runCase[T comparable](c codec[T], w []string) string {
 		r := slice.FilterMap(a, func(idx int, s T) (T, bool) {
 			return c.enc(evalMapf(f, idx, c.dec(s))), evalPred(p, idx, c.dec(s))
 		})
+		note(rec, r)
 		return ss(r) + " " + ss(a)
 	case "Map":
 		need(2)
 		a, f := sl(w[1]), w[2]
 		evalMapf(f, 0, 0)
 		r := slice.Map(a, func(idx int, s T) T { return c.enc(evalMapf(f, idx, c.dec(s))) })
+		note(rec, r)
 		return ss(r) + " " + ss(a)
 	case "ToMap":
 		need(2)
@@ -448,7 +548,7 @@ func runCase[T comparable](c codec[T], w []string) string {
 	case "Reverse":
 		need(1)
 		a := sl(w[1])
-		return catch(func() string { return ss(slice.Reverse(a)) }) + " " + ss(a)
+		return catch(func() string { r := slice.Reverse(a); note(rec, r); return ss(r) }) + " " + ss(a)
 	case "ReverseSelf":
 		need(1)
 		a := sl(w[1])
@@ -458,6 +558,9 @@ func runCase[T comparable](c codec[T], w []string) string {
 		a, i := sl(w[1]), atoi(w[2])
 		return catch(func() string {
 			r, err := slice.Delete(a, i)
+			if err == nil {
+				note(rec, r)
+			}
 			if err != nil {
 				return ss(r) + " " + showErr(err) + " " + ss(a)
 			}
@@ -469,17 +572,21 @@ func runCase[T comparable](c codec[T], w []string) string {
 		checkPred(p)
 		return catch(func() string {
 			r := slice.FilterDelete(a, func(idx int, s T) bool { return evalPred(p, idx, c.dec(s)) })
+			note(rec, r)
 			return ss(r) + " " + ss(a)
 		})
 	case "Add":
 		need(4)
-		spare := 0
+		spare = 0
 		if w[1] == "1" {
 			spare = 3
 		}
-		a, e, i := mkSlice(c, w[2], spare), c.enc(atoi(w[3])), atoi(w[4])
+		a, e, i := mkArg(c, rec, w[2], off, spare), c.enc(atoi(w[3])), atoi(w[4])
 		return catch(func() string {
 			r, err := slice.Add(a, e, i)
+			if err == nil {
+				note(rec, r)
+			}
 			if err != nil {
 				return ss(r) + " " + showErr(err) + " " + ss(a)
 			}
@@ -488,14 +595,20 @@ func runCase[T comparable](c codec[T], w []string) string {
 	case "Keys", "Values":
 		need(1)
 		m := mkMap(c, w[1])
+		var r []T
 		if w[0] == "Keys" {
-			return showSet(c, mapx.Keys(m))
+			r = mapx.Keys(m)
+		} else {
+			r = mapx.Values(m)
 		}
-		return showSet(c, mapx.Values(m))
+		note(rec, r)
+		return showSet(c, r)
 	case "KeysValues":
 		need(1)
 		m := mkMap(c, w[1])
 		ks, vs := mapx.KeysValues(m)
+		note(rec, ks)
+		note(rec, vs)
 		n := len(ks)
 		if len(vs) < n {
 			n = len(vs)
@@ -539,11 +652,12 @@ func runCase[T comparable](c codec[T], w []string) string {
 }
 
 // aggregates exist for numbers only
-func runAgg(w []string) string {
+func runAgg(w []string, off, spare int) string {
 	if len(w) != 2 {
 		panic(bad{"arity"})
 	}
-	a := mkSlice(intCodec, w[1], 0)
+	rec := &memrec{}
+	a := mkArg(intCodec, rec, w[1], off, spare)
 	return catch(func() string {
 		switch w[0] {
 		case "Max":
@@ -552,7 +666,7 @@ func runAgg(w []string) string {
 			return showInt(slice.Min(a))
 		}
 		return showInt(slice.Sum(a))
-	}) + " " + showSlice(intCodec, a)
+	}) + " " + showSlice(intCodec, a) + rec.String()
 }
 
 func runLine(line string) (res string) {
@@ -569,14 +683,22 @@ func runLine(line string) (res string) {
 	if len(w) < 2 {
 		return "badcase"
 	}
+	ty, off, spare := w[0], 0, 0
+	if i := strings.IndexByte(ty, '@'); i >= 0 {
+		l := strings.Split(ty[i+1:], ",")
+		if len(l) != 2 {
+			return "badcase"
+		}
+		ty, off, spare = ty[:i], atoi(l[0]), atoi(l[1])
+	}
 	switch w[1] {
 	case "Max", "Min", "Sum":
-		return runAgg(w[1:])
+		return runAgg(w[1:], off, spare)
 	}
-	if w[0] == "s" {
-		return runCase(strCodec, w[1:])
+	if ty == "s" {
+		return runCase(strCodec, w[1:], off, spare)
 	}
-	return runCase(intCodec, w[1:])
+	return runCase(intCodec, w[1:], off, spare)
 }
 
 func Main(args []string) {
